@@ -120,10 +120,17 @@ func SendMissingStz(lastSent int, s Sender, uaq *stanza.UnAckQueue) error {
 	uaq.RWMutex.Unlock()
 	if len(unacked) > 0 {
 		// Re-send non acknowledged stanzas
-		for _, elt := range unacked {
+		for i, elt := range unacked {
 			eltStz := elt.(*stanza.UnAckedStz)
 			err := s.SendRaw(eltStz.Stz)
 			if err != nil {
+				// The connection broke: what could not be sent again stays held (the one that failed has already
+				// been stored again by SendRaw), so that it can be retransmitted once the session is resumed
+				uaq.RWMutex.Lock()
+				for _, rest := range unacked[i+1:] {
+					uaq.Push(rest)
+				}
+				uaq.RWMutex.Unlock()
 				return err
 			}
 
